@@ -124,6 +124,40 @@ equation
   s = a1.x + b1.y;
 end C;
 """,
+    "redeclare_components": """
+model Pump
+  parameter Real gain = 1.0;
+  Real head;
+  Real rate;
+equation
+  rate = gain * head;
+end Pump;
+model NoLoop
+  Real rate;
+equation
+  rate = 0;
+end NoLoop;
+model PumpLoop
+  Real rate;
+  Pump pump(gain = 3.5);
+equation
+  rate = pump.rate;
+  pump.head = 2;
+end PumpLoop;
+model Unit
+  replaceable model Loop = NoLoop;
+  Loop circuit;
+  Real sum;
+equation
+  sum = circuit.rate;
+end Unit;
+model Site
+  Unit unit(redeclare model Loop = PumpLoop);
+end Site;
+model Site2
+  extends Unit(redeclare model Loop = PumpLoop);
+end Site2;
+""",
     "functions": """
 function f
   input Real a;
@@ -267,6 +301,8 @@ def sources(tier):
     out = []
     for name, text in LIBS.items():
         out.append(Source("generated:" + name, text))
+        if len(out[-1].classes) < 2:
+            raise RuntimeError("generated library %s does not parse: the sweep would be vacuous" % name)
     for fn in sorted(glob.glob(os.path.join(REPO, "test", "models", "*.mo"))):
         try:
             s = Source(os.path.basename(fn), open(fn).read())
@@ -409,8 +445,8 @@ def main():
                 uniq.append(f)
         print(json.dumps({"performed": True, "cases": n + ncli, "distinct_nontrivial": n + ncli, "failures": uniq[:10],
                           "rule": "histories of flatten / casadi generate / sympy generate requests on one parsed tree (every class twice, ordered pairs, a there-and-back history over all classes, "
-                                  "back ends interleaved; triples in the thorough tier) over %d sources (7 generated libraries: components with declaration equations, connectors, package constants and derived types, "
-                                  "redeclare, functions, unqualified imports, arrays; and every class of every parseable test model), each step compared with the same request on a fresh parse by full JSON dump; "
+                                  "back ends interleaved; triples in the thorough tier) over %d sources (8 generated libraries: components with declaration equations, connectors, package constants and derived types, "
+                                  "redeclare (of packages and of models with sub-components), functions, unqualified imports, arrays; and every class of every parseable test model), each step compared with the same request on a fresh parse by full JSON dump; "
                                   "tools/compiler.main alone vs together vs repeated for flatten-only and sympy targets. Diagnostic: parsed-tree objects still written by flatten: %s" % (len(srcs), leaks or "none"),
                           "bound": "%d histories of length 2-%d, %d CLI runs" % (n, 2 * max(len(s.classes) for s in srcs), ncli)}))
     else:
